@@ -29,7 +29,8 @@ def selftest(ck):
     prog = Program(frontend.load_sources([os.path.join(fdir, "c02.c")]))
     roles = capcheck.all_roles(prog)
     out = {}
-    want = {"fx2_len_good": 0, "fx2_len_deref_first": 1, "fx2_strlen_on_bounded": 1, "fx2_back_scan_good": 0, "fx2_back_scan_unbounded": 1}
+    want = {"fx2_len_good": 0, "fx2_len_deref_first": 1, "fx2_strlen_on_bounded": 1, "fx2_back_scan_good": 0, "fx2_back_scan_unbounded": 1,
+            "fx2_measured_good": 0, "fx2_measured_over": 1, "fx2_nested_read_over": 1, "_memrchr_s_chk": 0}
     for n, w in want.items():
         res, _ = capcheck.analyse(prog.funcs[n], roles.get(n, []), prog, roles)
         bad = sum(1 for x in res if x["kind"] == "R" and not (x["lo"] and x["hi"]))
